@@ -194,6 +194,14 @@ Definition attached_hosts (cs : cluster) (g : gateway) (l : listener) (r : route
   then accepted_hostnames (lhost l) (rt_hosts r)
   else [].
 
+(* class of finding D34: a valid HTTPS listener whose only attached routes are invalid ones *)
+Definition only_invalid_routes_on (cs : cluster) (g : gateway) (l : listener) : bool :=
+  existsb (fun r => negb (route_valid r) &&
+                    existsb (fun p => pref_targets g r p && pref_supported p && section_ok p l) (rt_parents r) &&
+                    ns_allowed cs g l (rt_ns r) && kind_allowed l (rt_kind r) &&
+                    match accepted_hostnames (lhost l) (rt_hosts r) with [] => false | _ => true end) (c_routes cs) &&
+  negb (existsb (fun r => match attached_hosts cs g l r with [] => false | _ => true end) (c_routes cs)).
+
 (* ------------------------------------------------------------------ matches *)
 
 Definition path_str (p : pathm) : string := match p with PathExact s | PathPrefix s => s end.
@@ -420,4 +428,16 @@ Definition decide (cs : cluster) (q : request) : decision :=
                 end
           end
       end
+  end.
+
+Definition class_D34 (cs : cluster) (q : request) : bool :=
+  match winning_gateway cs with
+  | None => false
+  | Some g =>
+      q_tls q &&
+      existsb (fun l => match l_proto l with PHTTPS => true | _ => false end &&
+                        only_invalid_routes_on cs g l &&
+                        name_serves (if seqb (lhost l) "" then catch_all else lhost l)
+                                    (match q_sni q with Some s => s | None => "" end))
+              (valid_listeners_on cs g (q_port q))
   end.
